@@ -60,9 +60,10 @@ def cases(tier, rng):
             k = 402 if "down" in api else 401
             yield {"k": k, "args": [ds, sq, data, [nodata]], "call": {"api": api}, "group": f"rand-{api}"}
         elif api == "kernel_uparea":
-            xres, yres = rng.choice([(1, -1), (2, -3), (-2, 5), (30, -30)])
-            yield {"k": 403, "args": [ds, nets.topo_order(ds, rng), [abs(xres * yres)] * n, [-9999]],
-                   "call": {"api": api, "xres": xres, "yres": yres}, "group": f"rand-{api}"}
+            # with an area factor (ha, km2) as well: cells outside the network keep exactly -9999 (round-4 seed)
+            xres, yres, fac = rng.choice([(1, -1, 1), (2, -3, 1), (-2, 5, 1), (30, -30, 1), (100, -100, 10000), (200, -300, 10000), (-1000, 2000, 1000000)])
+            yield {"k": 403, "args": [ds, nets.topo_order(ds, rng), [abs(xres * yres) // fac] * n, [-9999]],
+                   "call": {"api": api, "xres": xres, "yres": yres, "factor": fac}, "group": f"rand-{api}"}
         elif api == "uparea_after_add_pits":
             nonpit = [i for i in range(n) if ds[i] >= 0 and ds[i] != i]
             if not nonpit:
@@ -124,8 +125,8 @@ def impl(case):
         flw = make_raster(ds, transform=Affine(100.0, 0.0, 0.0, 0.0, -100.0, 0.0))
         call_impl(flw.upstream_area, "ha")
         st, v = call_impl(flw.upstream_area, "ha")
-        if st == "ok":
-            v = np.where(np.asarray(v) < 0, -9999, np.asarray(v))
+        if st == "ok" and np.any((np.asarray(v) < 0) & (np.asarray(v) != -9999)):
+            return [[-3], ["cells outside the network are not -9999 after a unit conversion"]]
         return outl(st, v)
     if api == "uparea_cell":
         flw = make_raster(ds)
@@ -138,7 +139,7 @@ def impl(case):
         return outl(*call_impl(flw.upstream_area))
     if api == "kernel_uparea":
         tr = Affine(call["xres"], 0.0, 0.0, 0.0, call["yres"], 0.0)
-        return outl(*call_impl(streams.upstream_area, ds_array(ds), np.array(sq, dtype=np.int32), n, False, tr, 1, -9999.0))
+        return outl(*call_impl(streams.upstream_area, ds_array(ds), np.array(sq, dtype=np.int32), n, False, tr, call.get("factor", 1), -9999.0))
     raise ValueError(api)
 
 
